@@ -841,6 +841,8 @@ impl<'b> InnerBucket<'b> {
                 if node.page_id == self.meta.root_page {
                     // If the root node has only one branch, promote that page to the root page
                     if !node.leaf() && node.data.len() == 1 {
+                        #[cfg(feature = "verif-hooks")]
+                        crate::verif::note(|| format!("rb collapse root={}", node.page_id));
                         // delete the root node
                         node.free_page(tx_freelist);
                         node.deleted = true;
@@ -859,6 +861,8 @@ impl<'b> InnerBucket<'b> {
                         self.meta.root_page = page_id;
                         self.root = PageNodeID::Page(page_id);
                     } else if !node.leaf() && node.data.len() == 0 {
+                        #[cfg(feature = "verif-hooks")]
+                        crate::verif::note(|| format!("rb emptyroot root={}", node.page_id));
                         // Every child was emptied and removed, so the bucket is empty again.
                         node.data = NodeData::Leaves(Vec::new());
                     }
@@ -869,6 +873,8 @@ impl<'b> InnerBucket<'b> {
 
                     // borrow the parent in a separate scope so we can drop it before we initialize the sibling node
                     let mut parent = parent_ref.borrow_mut();
+                    #[cfg(feature = "verif-hooks")]
+                    let parent_page_id = parent.page_id;
                     if let NodeData::Branches(branches) = &mut parent.data {
                         // If there is only one branch in the parent, then we cannot delete this node
                         // since there are no siblings to move the data to.
@@ -887,6 +893,16 @@ impl<'b> InnerBucket<'b> {
                             Ok(i) => i,
                             _ => panic!("child branch not found"),
                         };
+                        #[cfg(feature = "verif-hooks")]
+                        crate::verif::note(|| {
+                            format!(
+                                "rb merge parent={} index={} node={} moved={}",
+                                parent_page_id,
+                                index,
+                                node.page_id,
+                                (node.data.len() > 0 && branches.len() > 1) as u8
+                            )
+                        });
                         let mut merged_right = false;
                         if node.data.len() > 0 && branches.len() > 1 {
                             // add that child's data to a sibling node
